@@ -130,7 +130,7 @@ def prime(classes, schema):
             if f["card"] == "map":
                 key = {"string": "k", "bool": True}.get(f["kkind"], 1)
                 val = classes[f["msg"]]() if f["vkind"] == "message" else classes[f["enum"]](0) if f["vkind"] == "enum" else \
-                    {"string": "v", "bytes": b"v", "bool": True, "float": 1.0, "double": 1.0}.get(f["vkind"], 1)
+                    {"string": "v", "bytes": b"v", "bool": True, "float": 1.0, "double": 1.0, "timestamp": av.us_dt(1000001), "duration": av.us_td(1000001)}.get(f["vkind"], 1)
                 cls().parse(bytes(cls(**{py(f): {key: val}})))
             elif f["card"] == "repeated" and f["kind"] == "message":
                 cls().parse(bytes(cls(**{py(f): [classes[f["msg"]]()]})))
@@ -181,9 +181,9 @@ def make_bp(schema, modname=None, twin=True):
                     kw["optional"] = True
             if k == "map":
                 vk = f["vkind"]
-                vt = f["msg"] if vk == "message" else f["enum"] if vk == "enum" else PYT[vk]
+                vt = f["msg"] if vk == "message" else f["enum"] if vk == "enum" else "datetime" if vk == "timestamp" else "timedelta" if vk == "duration" else PYT[vk]
                 ann = "Dict[%s, %s]" % (PYT[f["kkind"]], vt)
-                fld = betterproto.map_field(f["num"], f["kkind"], vk)
+                fld = betterproto.map_field(f["num"], f["kkind"], "message" if vk in ("timestamp", "duration") else vk)
             else:
                 if k == "message":
                     base, fld = f["msg"], betterproto.message_field(f["num"], **kw)
@@ -508,8 +508,8 @@ def fill_ref(schema, R, ty, val, m=None):
             mp = getattr(m, name)
             for kk, vv in a["es"]:
                 key = _ref_scalar(kk)
-                if f["vkind"] == "message":
-                    _fill_ref_msg(schema, R, f, "message", vv, mp[key])
+                if f["vkind"] in ("message", "timestamp", "duration"):
+                    _fill_ref_msg(schema, R, f, f["vkind"], vv, mp[key])
                 else:
                     mp[key] = _ref_scalar(vv)
         elif k in ("message", "timestamp", "duration", "wrap"):
